@@ -338,7 +338,7 @@ type subst struct {
 	nullAlias bool
 }
 
-var scalarPool = []string{"./x.yml@main", "./", "docker://", "owner/repo@", "checkout@feature/x", "a@b/c", "@/", "/@", "@", "a/b/c@", "a//b@c", "./@x/", "nan", ".nan", ".inf", "-.inf", "inf", "-0", "0x10", "0o17", "1e400", "1_000", "", "~", "true",
+var scalarPool = []string{"docker:", "docker:/", "docker:x", "docker", ".", "..", "./.", "a/b@c:d", "docker://a:", "./x.yml@main", "./", "docker://", "owner/repo@", "checkout@feature/x", "a@b/c", "@/", "/@", "@", "a/b/c@", "a//b@c", "./@x/", "nan", ".nan", ".inf", "-.inf", "inf", "-0", "0x10", "0o17", "1e400", "1_000", "", "~", "true",
 	"123456789012345678901234567890123456789012345678901234567890", "NaN", "0", "-1", "1.5", "${{ x }}", " ${{ x }} ", "${{ a }} ${{ b }}", "a b"}
 
 var tagPool = []string{"!!float", "!!int", "!!bool", "!!null", "!!str", "!!binary"}
@@ -746,6 +746,140 @@ func (pl *plan) build() {
 		nmain = 600
 	}
 	pl.streams = append(pl.streams, mainStream(pl, nmain))
+	pl.streams = append(pl.streams, structStream())
+}
+
+// ------------------------------------------------------ large structures
+//
+// "terminates in bounded time": documents whose size is modest but whose STRUCTURE makes a naive
+// traversal exponential or deeply recursive: layered needs graphs (3^L paths) with and without a
+// cycle, long needs chains, complete DAGs, deeply nested expressions and YAML collections, very
+// many steps.
+
+func needsGraph(layers, width int, cycle int) []byte {
+	var b strings.Builder
+	b.WriteString("on: push\njobs:\n")
+	job := func(id string, needs []string) {
+		b.WriteString("  " + id + ":\n")
+		if len(needs) > 0 {
+			b.WriteString("    needs: [" + strings.Join(needs, ", ") + "]\n")
+		}
+		b.WriteString("    runs-on: ubuntu-latest\n    steps:\n      - run: echo\n")
+	}
+	layer := func(l int) []string {
+		var ids []string
+		for k := 0; k < width; k++ {
+			ids = append(ids, fmt.Sprintf("l%d_%d", l, k))
+		}
+		return ids
+	}
+	top := layer(layers - 1)
+	switch cycle {
+	case 1: // the cycle is written first; its first job lists the top of the layers BEFORE its cyclic dependency
+		job("ca", append(append([]string{}, top...), "cb"))
+		job("cb", []string{"ca"})
+	}
+	for l := 0; l < layers; l++ {
+		for _, id := range layer(l) {
+			if l == 0 {
+				job(id, nil)
+			} else {
+				job(id, layer(l-1))
+			}
+		}
+	}
+	if cycle == 2 { // the cycle is written last and reaches the layers through its second job
+		job("za", []string{"zb"})
+		job("zb", append([]string{"za"}, top...))
+	}
+	if cycle == 3 { // a self loop on a job that needs the top of the layers
+		job("zs", append(append([]string{}, top...), "zs"))
+	}
+	return []byte(b.String())
+}
+
+func structDocs() []struct {
+	desc string
+	data []byte
+} {
+	type doc = struct {
+		desc string
+		data []byte
+	}
+	var ds []doc
+	for _, l := range []int{12, 30, 60} {
+		for c := 0; c <= 3; c++ {
+			ds = append(ds, doc{fmt.Sprintf("needs graph of %d layers x 3 jobs (3^%d paths), cycle variant %d", l, l, c), needsGraph(l, 3, c)})
+		}
+	}
+	{ // chain of 400 jobs, closed to a cycle or not
+		for c := 0; c < 2; c++ {
+			var b strings.Builder
+			b.WriteString("on: push\njobs:\n")
+			for i := 0; i < 400; i++ {
+				fmt.Fprintf(&b, "  c%d:\n", i)
+				if i > 0 {
+					fmt.Fprintf(&b, "    needs: c%d\n", i-1)
+				} else if c == 1 {
+					b.WriteString("    needs: c399\n")
+				}
+				b.WriteString("    runs-on: ubuntu-latest\n    steps:\n      - run: echo\n")
+			}
+			ds = append(ds, doc{fmt.Sprintf("needs chain of 400 jobs (closed: %v)", c == 1), []byte(b.String())})
+		}
+	}
+	{ // complete DAG of 45 jobs + one back edge
+		for c := 0; c < 2; c++ {
+			var b strings.Builder
+			b.WriteString("on: push\njobs:\n")
+			for i := 0; i < 45; i++ {
+				fmt.Fprintf(&b, "  d%d:\n", i)
+				var ns []string
+				for k := 0; k < i; k++ {
+					ns = append(ns, fmt.Sprintf("d%d", k))
+				}
+				if i == 0 && c == 1 {
+					ns = append(ns, "d44")
+				}
+				if len(ns) > 0 {
+					b.WriteString("    needs: [" + strings.Join(ns, ", ") + "]\n")
+				}
+				b.WriteString("    runs-on: ubuntu-latest\n    steps:\n      - run: echo\n")
+			}
+			ds = append(ds, doc{fmt.Sprintf("complete needs DAG of 45 jobs (back edge: %v)", c == 1), []byte(b.String())})
+		}
+	}
+	hdr := "on: push\njobs:\n  j:\n    runs-on: ubuntu-latest\n    steps:\n"
+	for _, d := range []int{50, 500, 3000} {
+		ds = append(ds,
+			doc{fmt.Sprintf("%d nested parentheses", d), []byte(hdr + "      - run: echo ${{ " + strings.Repeat("(", d) + "1" + strings.Repeat(")", d) + " }}\n")},
+			doc{fmt.Sprintf("%d nested calls", d), []byte(hdr + "      - run: echo ${{ " + strings.Repeat("format(", d) + "'x'" + strings.Repeat(")", d) + " }}\n")},
+			doc{fmt.Sprintf("%d nested index brackets", d), []byte(hdr + "      - run: echo ${{ github" + strings.Repeat("[github", d) + strings.Repeat("]", d) + " }}\n")},
+			doc{fmt.Sprintf("%d negations", d), []byte(hdr + "      - run: echo ${{ " + strings.Repeat("!", d) + "true }}\n")},
+			doc{fmt.Sprintf("%d operands of &&", d), []byte(hdr + "      - run: echo ${{ true" + strings.Repeat(" && github.sha", d) + " }}\n")},
+			doc{fmt.Sprintf("%d dereferences", d), []byte(hdr + "      - run: echo ${{ github.event" + strings.Repeat(".a", d) + " }}\n")},
+			doc{fmt.Sprintf("%d placeholders in one scalar", d), []byte(hdr + "      - run: echo" + strings.Repeat(" ${{ github.sha }}", d) + "\n")},
+			doc{fmt.Sprintf("%d unclosed parentheses", d), []byte(hdr + "      - run: echo ${{ " + strings.Repeat("(", d) + " }}\n")},
+			doc{fmt.Sprintf("flow sequence nested %d deep as a matrix value", d), []byte("on: push\njobs:\n  j:\n    runs-on: ubuntu-latest\n    strategy:\n      matrix:\n        v: [" + strings.Repeat("[", d) + "1" + strings.Repeat("]", d) + "]\n    steps:\n      - run: echo ${{ matrix.v }}\n")},
+			doc{fmt.Sprintf("flow mapping nested %d deep as a matrix value", d), []byte("on: push\njobs:\n  j:\n    runs-on: ubuntu-latest\n    strategy:\n      matrix:\n        v: [" + strings.Repeat("{a: ", d) + "1" + strings.Repeat("}", d) + "]\n    steps:\n      - run: echo ${{ matrix.v }}\n")},
+		)
+	}
+	{
+		var b strings.Builder
+		b.WriteString(hdr)
+		for i := 0; i < 1500; i++ {
+			fmt.Fprintf(&b, "      - id: s%d\n        run: echo ${{ steps.s%d.outputs.x }}\n", i, (i+1)/2)
+		}
+		ds = append(ds, doc{"1500 steps with ids, each reading an earlier one", []byte(b.String())})
+	}
+	return ds
+}
+
+func structStream() *Stream {
+	ds := structDocs()
+	return &Stream{Name: "structures", N: len(ds), Get: func(i int) *Case {
+		return &Case{Stream: "structures", Idx: i, Channel: chWorkflow, Data: ds[i].data, Desc: ds[i].desc}
+	}}
 }
 
 // ------------------------------------------------------ expression text
